@@ -52,12 +52,12 @@ NormCall(call) == [call EXCEPT !.op = NormOp(@), !.ops = TLCEval([k \in 1..Len(@
                                !.radixes = TLCEval(@), !.region = TLCEval([k \in 1..Len(@) |-> TLCEval(@[k])])]
 
 RECURSIVE LeafTags(_)
-LeafTags(o) == IF o.kind = "block" THEN UNION {LeafTags(o.body[k]) : k \in 1..Len(o.body)}
+LeafTags(o) == IF o.kind \in {"block", "iblock"} THEN UNION {LeafTags(o.body[k]) : k \in 1..Len(o.body)}
                ELSE IF o.kind = "gate" THEN {IF o.tag < 0 THEN -o.tag ELSE o.tag} ELSE {}
 RECURSIVE NumLeaves(_)
-NumLeaves(o) == IF o.kind = "block" THEN SumR([k \in 1..Len(o.body) |-> NumLeaves(o.body[k])], 1, Len(o.body)) ELSE 1
+NumLeaves(o) == IF o.kind \in {"block", "iblock"} THEN SumR([k \in 1..Len(o.body) |-> NumLeaves(o.body[k])], 1, Len(o.body)) ELSE 1
 RECURSIVE Nest(_)
-Nest(o) == IF o.kind = "block" THEN 1 + MaxOf({Nest(o.body[k]) : k \in 1..Len(o.body)} \cup {0}) ELSE 0
+Nest(o) == IF o.kind \in {"block", "iblock"} THEN 1 + MaxOf({Nest(o.body[k]) : k \in 1..Len(o.body)} \cup {0}) ELSE 0
 Used(X) == UNION {LeafTags(X.ops[id]) : id \in LiveIds(X)}
 Leaves(X) == LET os == FwdOps(X) IN SumR([k \in 1..Len(os) |-> NumLeaves(os[k])], 1, Len(os))
 Fresh1(X) == MinOf((1..MaxLive + 2) \ Used(X))
